@@ -22,7 +22,7 @@ INFO = {
                   'pl.schedule.find', 'pl.farm.dispatch', 'pl.farm._put', 'pl.farm.Hand._res', 'pl.farm.rerunid', 'pl.dag.Construct (graph construction)'],
     'bounds': {
         'quick': 'shapes G2..G9, G11 (chains of 2-4, fork, join, diamond, analysis up/down-stream, regression); targets T1 + all-targets marker; histories of <=4 events (<=5 on G4, G8)',
-        'thorough': 'shapes G2..G11; histories of <=6 events (<=5 on 4-node shapes)',
+        'thorough': 'shapes G2..G11; histories of <=5 events',
     },
     'assumptions': [
         'algorithm engine = in-memory classes registered through the real dawgie.base.Factories (SynthAE)',
@@ -42,7 +42,5 @@ def obligations(tier):
     kq = {s: 4 for s in QUICK}
     kq['G8'] = 5
     kq['G4'] = 5
-    kt = {s: 6 for s in THOROUGH}
-    kt['G7'] = 5
-    kt['G11'] = 5
+    kt = {s: 5 for s in THOROUGH}
     return sched.make_obligations('C01', 'c01', tier, QUICK, THOROUGH, kq, kt, fix=2)
